@@ -88,3 +88,5 @@ ZIGZAG = _f([[i + 1, v] for i, v in enumerate([2, 5, 2, 8] * 3 + [2])])
 # 7-point integer curve on which two non-sibling pending segments have exactly equal ordering scores (found by a one-off random comparison of two
 # tie-break rules; used as the base of an inline slice so that tie-break changes in the work stack have a concrete witness)
 TIE7 = _f([[0, 0], [1, 0], [2, 2], [3, 1], [4, 4], [5, 3], [6, 0]])
+# 13-point evenly spaced decreasing curve on which the refinement cycles between two prefixes that do not include the whole curve
+LM_CYCLE13 = _f([[i, v] for i, v in enumerate([39, 33, 30, 29, 19, 16, 13, 12, 11, 10, 9, 2, 0])])
